@@ -296,11 +296,16 @@ fn kind_of(m: &Message) -> (&'static str, i64, Option<libc::timespec>) {
     }
 }
 
-/// virtual monotonic clock: model second s <-> (BASE + s) s + NS ns (non-zero ns: void_after rounding is exercised)
-const BASE: i64 = 5000;
+/// virtual monotonic clock: model second s <-> (base + s) s + NS ns (non-zero ns: void_after rounding is exercised).
+/// The base (machine uptime at model time 0) varies with the behaviour: long up, just booted, up for ten minutes -
+/// the place-holder as-of of 0 is "recent" only on a machine that has just booted.
+static BASE_V: std::sync::atomic::AtomicI64 = std::sync::atomic::AtomicI64::new(5000);
+fn base() -> i64 {
+    BASE_V.load(std::sync::atomic::Ordering::Relaxed)
+}
 const NS: i64 = 123_456_789;
 fn vts(s: i64) -> libc::timespec {
-    libc::timespec { tv_sec: BASE + s, tv_nsec: NS }
+    libc::timespec { tv_sec: base() + s, tv_nsec: NS }
 }
 
 struct Script {
@@ -507,8 +512,8 @@ fn replay_one(beh: &Value, tag: &str) -> (usize, usize, Vec<Value>, Option<Strin
                 let p = &exp["pub"];
                 let g = 1_000_000_000i128;
                 let measured = exp["measured"].as_bool().unwrap();
-                let want_asof = if measured { (BASE + p["asOf"].as_i64().unwrap()) as i128 * g + NS as i128 } else { 0 };
-                let want_void = if measured { (BASE + p["asOf"].as_i64().unwrap() + 1000) as i128 * g } else { 1000 * g };
+                let want_asof = if measured { (base() + p["asOf"].as_i64().unwrap()) as i128 * g + NS as i128 } else { 0 };
+                let want_void = if measured { (base() + p["asOf"].as_i64().unwrap() + 1000) as i128 * g } else { 1000 * g };
                 let want_bound = p["bound"].as_i64().unwrap();
                 let want_st = status_code(p["status"].as_str().unwrap());
                 let out_cls = st["v"]["cls"].as_str().unwrap_or("U");
@@ -591,6 +596,7 @@ fn replay_cmd(args: &[String]) -> Value {
         }
         let beh: Value = serde_json::from_str(&line).unwrap();
         let n = beh["n"].as_u64().unwrap_or(nb as u64);
+        BASE_V.store([5000, 7, 600][(n % 3) as usize], std::sync::atomic::Ordering::Relaxed);
         let (s, c, v, d) = replay_one(&beh, &format!("dr{n}"));
         steps += s;
         comps += c;
